@@ -22,6 +22,7 @@ import (
 	"helm.sh/helm/v4/pkg/cli"
 	"helm.sh/helm/v4/pkg/downloader"
 	"helm.sh/helm/v4/pkg/getter"
+	"helm.sh/helm/v4/pkg/plugin/cache"
 	"helm.sh/helm/v4/pkg/plugin/installer"
 )
 
@@ -407,6 +408,12 @@ func runFS(b *fsbox, cs Case) result {
 	case "pull":
 		allowed = []string{"/box/dest"}
 		call = func() error { return callPull(b, cs, gz) }
+	case "install":
+		allowed = []string{"/box/dest/cache", "/box/dest/data"}
+		b.dirty = true
+		os.MkdirAll(filepath.Join(b.Dest(), "cache"), 0o755)
+		os.MkdirAll(filepath.Join(b.Dest(), "data"), 0o755)
+		call = func() error { return callInstall(b, cs, gz) }
 	case "mgr":
 		allowed = []string{"/box/dest"}
 		b.dirty = true
@@ -418,6 +425,9 @@ func runFS(b *fsbox, cs Case) result {
 		return result{Outcome: "harness-error:unknown ep " + cs.EP}
 	}
 	plants := layoutPlants(cs)
+	if cs.EP == "install" {
+		plants = installPlants(b, cs)
+	}
 	before := b.pristine
 	if len(plants) > 0 || b.dirty {
 		b.dirty = true
@@ -434,6 +444,10 @@ func runFS(b *fsbox, cs Case) result {
 	after, err := snap(b.Root)
 	if err != nil {
 		return result{Outcome: "harness-error:snap " + scrub(b, err.Error())}
+	}
+	if cerr != nil && strings.HasPrefix(cerr.Error(), "harness: ") {
+		b.dirty = true
+		return result{Outcome: "harness-error:" + cerr.Error()}
 	}
 	res.Outcome = cs.EP + ":" + classifyErr(cerr)
 	if cerr != nil {
@@ -617,4 +631,65 @@ func callPull(b *fsbox, cs Case, gz []byte) error {
 	p.DestDir = b.Dest()
 	_, err = p.Run(s.URL + cs.URLPath)
 	return err
+}
+
+// ---------- plugin install over HTTP ----------
+
+const pluginURLPath = "/p-1.0.0.tgz"
+
+func installEnv(b *fsbox) func() {
+	os.Setenv("HELM_CACHE_HOME", filepath.Join(b.Dest(), "cache"))
+	os.Setenv("HELM_DATA_HOME", filepath.Join(b.Dest(), "data"))
+	os.Setenv("HELM_CONFIG_HOME", filepath.Join(b.Dest(), "data", "config"))
+	os.Unsetenv("HELM_PLUGINS")
+	return func() {
+		os.Unsetenv("HELM_CACHE_HOME")
+		os.Unsetenv("HELM_DATA_HOME")
+		os.Unsetenv("HELM_CONFIG_HOME")
+	}
+}
+
+var installLayouts = []string{"empty", "cache-sub-symdir", "cache-file-symfile", "cache-file-dangling", "cache-sub-file", "plugin-symdir", "plugin-dangling"}
+
+func installPlants(b *fsbox, cs Case) []plant {
+	s, err := server()
+	if err != nil {
+		return nil
+	}
+	key, _ := cache.Key(s.URL + pluginURLPath)
+	cd := "dest/cache/plugins/" + key
+	sym := func(path, target string) plant {
+		return plant{Path: path, Kind: "symlink", Target: target, Abs: cs.LinkAbs}
+	}
+	switch cs.Layout {
+	case "cache-sub-symdir":
+		return []plant{{Path: cd, Kind: "dir"}, sym(cd+"/a", "outside/dir")}
+	case "cache-file-symfile":
+		return []plant{{Path: cd, Kind: "dir"}, sym(cd+"/a", "outside/secret"), sym(cd+"/b", "outside/secret"), sym(cd+"/plugin.yaml", "outside/secret")}
+	case "cache-file-dangling":
+		return []plant{{Path: cd, Kind: "dir"}, sym(cd+"/a", "outside/new"), sym(cd+"/b", "outside/new"), sym(cd+"/plugin.yaml", "outside/new")}
+	case "cache-sub-file":
+		return []plant{{Path: cd, Kind: "dir"}, {Path: cd + "/a", Kind: "file", Data: "f\n"}}
+	case "plugin-symdir":
+		return []plant{sym("dest/data/plugins/p", "outside/dir")}
+	case "plugin-dangling":
+		return []plant{sym("dest/data/plugins/p", "outside/newdir")}
+	}
+	return nil
+}
+
+func callInstall(b *fsbox, cs Case, gz []byte) error {
+	s, err := server()
+	if err != nil {
+		return fmt.Errorf("harness: %v", err)
+	}
+	srvMu.Lock()
+	srvData = gz
+	srvMu.Unlock()
+	defer installEnv(b)()
+	i, err := installer.NewHTTPInstaller(s.URL + pluginURLPath)
+	if err != nil {
+		return err
+	}
+	return installer.Install(i)
 }
